@@ -42,4 +42,14 @@ TEXTS = {
         "level_text": "Exploration: >10^6 clean traces per quick run compared exactly (ids, start, end, counts); the input class where the heuristic cannot separate boots is generated on purpose, evaluated and reported as known finding.",
         "level_note": "ground truth comes from the generator; exact arithmetic because all times are multiples of 0.1 ms",
     },
+    "C09": {
+        "technique": T + "exactly-once / per-source-order / numbering oracle over unambiguous histories (every message tagged with source and position) of the four merge constructors",
+        "level_text": "Exploration: >10^6 generated source families per quick run incl. heavy ties, empty sources and start indices near u32::MAX.",
+        "level_note": "sources are in-memory iterators; the file-level merge is exercised by C14",
+    },
+    "C10": {
+        "technique": T + "permutation oracle on every run and ordering oracle (by model-computed calculated time, ties by original index) on the runs whose premise the model confirms",
+        "level_text": "Exploration: >10^6 generated streams and tables per quick run; the ordering premise is checked by the model before the ordering oracle votes.",
+        "level_note": "tables are static (built through the public API), as the sorter caches lifecycle start times",
+    },
 }
